@@ -101,4 +101,34 @@ def generate(rng, tier, focus):
                 if rng.random() > ((0.08 if thorough else 0.03) if k >= 4 else (0.5 if k == 3 else 1.0)):
                     continue
                 cases.append((scn(subjects=[["subject"]] * 3, handles=1, script_=[sub(0, p)] + [["emit", h, ev] for (h, ev) in t]), {"k": "dyn-hot"}))
+    # flat_map whose set of inner observables CHURNS: three hot inner sources, opened by outer items (value mod 3), completing at
+    # random moments while others are still running and further ones are opened afterwards (the registration of a running inner
+    # observable must survive the departure of an older one and the arrival of a newer one)
+    for _ in range(6000 if thorough else 900):
+        evs = []
+        for _ in range(rng.randrange(5, 11)):
+            r = rng.random()
+            if r < 0.4:
+                evs.append(["emit", 0, n(rng.choice([0, 1, 2, 3, 4, 5]))])
+            elif r < 0.7:
+                evs.append(["emit", rng.choice([1, 2, 3]), n(rng.choice([7, 8, 9]))])
+            elif r < 0.9:
+                evs.append(["emit", rng.choice([1, 2, 3]), C])
+            else:
+                evs.append(["emit", 0, rng.choice([C, C, e(7)])])
+        p = op("flat_map", [["mod"]], ["hot", 0], ["hot", 1], ["hot", 2], ["hot", 3])
+        if rng.random() < 0.2:
+            p = scen.rand_chain(rng, p, 1, names=["map", "filter", "take", "skip"])
+        cases.append((scn(subjects=[["subject"]] * 4, handles=1, script_=[sub(0, p)] + evs), {"k": "flat_map-churn"}))
+    # ... directed: a and b are opened, a completes, c is opened (on a third source), b completes, the outer source completes,
+    # and only then c emits and completes - with random further items in between
+    for _ in range(1200 if thorough else 200):
+        x, y, z = rng.sample([1, 2, 3], 3)
+        val = lambda h: rng.choice([h - 1, h + 2])          # (v mod 3) + 1 == h
+        noise = lambda hs: [["emit", rng.choice(hs), n(rng.choice([7, 8, 9]))] for _ in range(rng.choice([0, 0, 1]))]
+        evs = [["emit", 0, n(val(x))]] + noise([x]) + [["emit", 0, n(val(y))]] + noise([x, y]) + [["emit", x, C]] + noise([y]) + \
+              [["emit", 0, n(val(z))]] + noise([y, z]) + [["emit", y, C]] + noise([z]) + [["emit", 0, C]] + \
+              [["emit", z, n(rng.choice([7, 8, 9]))], ["emit", z, rng.choice([C, e(7)])]]
+        p = op("flat_map", [["mod"]], ["hot", 0], ["hot", 1], ["hot", 2], ["hot", 3])
+        cases.append((scn(subjects=[["subject"]] * 4, handles=1, script_=[sub(0, p)] + evs), {"k": "flat_map-churn-directed"}))
     return cases
